@@ -1382,19 +1382,74 @@ func (w *World) evalScanPredicates(fn *ssa.Function, sl *ssa.Slice) (first, rest
 			}
 		}
 	}
-	if loop == nil || guard == nil {
-		return first, rest, "scanning idiom (guard on the first byte, then a loop over the following bytes) not found before the name is sliced"
+	// the guard may call a one-byte predicate of the module instead of spelling the class out
+	if guard == nil {
+		for i := idx - 1; i >= 0; i-- {
+			if x, ok := list[i].(*ast.IfStmt); ok && endsInReturn(x.Body) && w.mentionsBytePredicateCall(info, x.Cond) {
+				guard = x
+			}
+		}
 	}
 	ev := &byteEval{w: w, info: info}
 	var restExpr ast.Expr
 	negate := false
-	if loop.Cond != nil && mentionsByteClass(loop.Cond) {
-		restExpr = loop.Cond
+	var loopBody *ast.BlockStmt
+	var loopCond ast.Expr
+	if loop != nil {
+		loopBody, loopCond = loop.Body, loop.Cond
 	} else {
-		for _, st := range loop.Body.List {
-			if ifs, ok := st.(*ast.IfStmt); ok && mentionsByteClass(ifs.Cond) && len(ifs.Body.List) == 1 {
-				if br, ok := ifs.Body.List[0].(*ast.BranchStmt); ok && br.Tok == token.BREAK {
-					restExpr, negate = ifs.Cond, true
+		// the scan extracted into a helper of the same package: `i := scanLength(line)`; the helper's loop decides
+		for i := idx - 1; i >= 0 && loopBody == nil; i-- {
+			as, ok := list[i].(*ast.AssignStmt)
+			if !ok || len(as.Rhs) != 1 {
+				continue
+			}
+			call, ok := as.Rhs[0].(*ast.CallExpr)
+			if !ok {
+				continue
+			}
+			id, ok := call.Fun.(*ast.Ident)
+			if !ok {
+				continue
+			}
+			fo, ok := info.Uses[id].(*types.Func)
+			if !ok {
+				continue
+			}
+			hf := w.Prog.FuncValue(fo)
+			if hf == nil || !w.InModule(hf) {
+				continue
+			}
+			hd, ok := hf.Syntax().(*ast.FuncDecl)
+			if !ok || hd.Body == nil {
+				continue
+			}
+			for _, st := range hd.Body.List {
+				switch l := st.(type) {
+				case *ast.ForStmt:
+					loopBody, loopCond = l.Body, l.Cond
+				case *ast.RangeStmt:
+					loopBody = l.Body
+				}
+			}
+		}
+	}
+	if loopBody == nil || guard == nil {
+		return first, rest, "scanning idiom (guard on the first byte, then a loop over the following bytes) not found before the name is sliced"
+	}
+	isByteTest := func(e ast.Expr) bool { return mentionsByteClass(e) || w.mentionsBytePredicateCall(info, e) }
+	if loopCond != nil && isByteTest(loopCond) {
+		restExpr = loopCond
+	} else {
+		for _, st := range loopBody.List {
+			if ifs, ok := st.(*ast.IfStmt); ok && isByteTest(ifs.Cond) && len(ifs.Body.List) == 1 {
+				switch br := ifs.Body.List[0].(type) {
+				case *ast.BranchStmt:
+					if br.Tok == token.BREAK {
+						restExpr, negate = ifs.Cond, true
+					}
+				case *ast.ReturnStmt:
+					restExpr, negate = ifs.Cond, true // `if !P(c) { return i }` in a scanning helper
 				}
 				break
 			}
@@ -1422,6 +1477,40 @@ func (w *World) evalScanPredicates(fn *ssa.Function, sl *ssa.Slice) (first, rest
 		rest[c] = l
 	}
 	return first, rest, ""
+}
+
+// mentionsBytePredicateCall: the expression calls a module function of signature func(byte) bool (a named character
+// class such as isAttributeNameStart).
+func (w *World) mentionsBytePredicateCall(info *types.Info, e ast.Expr) bool {
+	found := false
+	ast.Inspect(e, func(n ast.Node) bool {
+		c, ok := n.(*ast.CallExpr)
+		if !ok || len(c.Args) != 1 {
+			return true
+		}
+		var obj types.Object
+		switch f := c.Fun.(type) {
+		case *ast.SelectorExpr:
+			obj = info.Uses[f.Sel]
+		case *ast.Ident:
+			obj = info.Uses[f]
+		}
+		fo, ok := obj.(*types.Func)
+		if !ok || fo.Pkg() == nil {
+			return true
+		}
+		if _, inMod := w.Pkgs[fo.Pkg().Path()]; !inMod {
+			return true
+		}
+		sig := fo.Type().(*types.Signature)
+		if sig.Params().Len() == 1 && sig.Results().Len() == 1 && isBool(sig.Results().At(0).Type()) {
+			if b, ok := sig.Params().At(0).Type().Underlying().(*types.Basic); ok && b.Kind() == types.Uint8 {
+				found = true
+			}
+		}
+		return true
+	})
+	return found
 }
 
 func endsInReturn(b *ast.BlockStmt) bool {
